@@ -167,6 +167,8 @@ def main():
                         fact(bool(f['flags'] & F('Function.F_method')) and bool(f['flags'] & F('Function.F_virtual')) == bool(m.get('virtual')), 'function-roles',
                              '%s: flags %x (virtual declared %s)' % (sc, f['flags'], m.get('virtual')))
                         fact(f['index'] in t['methods'] if 'index' in f else any(FN[i] is f for i in t['methods']), 'membership', '%s is not listed among the methods of %s' % (sc, c['name']))
+                        fact(bool(f['flags'] & F('Function.F_unary_op')) == bool(m.get('unary')), 'function-roles', '%s: unary-operator flag %s, declared with %d parameters' %
+                             (sc, bool(f['flags'] & F('Function.F_unary_op')), len(m['params'])))
                 elif k == 'overload':
                     fs = fn_by_scoped.get(sc, [])
                     fact(len(fs) == 1, 'function-record', '%s: %d function records for an overload set' % (sc, len(fs)))
@@ -175,6 +177,7 @@ def main():
                         got = sorted(tuple((q['name'], tyname(q['type'])) for q in WR[i]['parameters']) for i in fs[0]['c_wrappers'])
                         want = sorted(tuple([('this', this_t)] + [(q['name'], q['type']['db']) for q in ps]) for ps in m['overloads'])
                         fact(got == want, 'overload-set', '%s: callable variants %s, declared overloads %s' % (sc, got, want))
+                        fact(not fs[0]['flags'] & F('Function.F_unary_op'), 'function-roles', '%s: an overload set flagged as a unary operator' % sc)
                 elif k == 'ctor':
                     f = check_callable('%s::%s' % (c['name'], c['name']), m['params'], {'db': c['name'] + ' *', 'src': c['name']}, None, True, is_ctor=True)
                     if f is not None:
